@@ -115,6 +115,7 @@ type Interp struct {
 	memo       map[string][]Outcome
 	active     map[string]bool
 	usedActive map[string]bool
+	inPlace    map[*types.Func]bool
 	done       map[string]bool
 	Problems   []Problem
 	probSeen   map[string]bool
@@ -126,7 +127,7 @@ type Interp struct {
 }
 
 func New(cfg Config) *Interp {
-	return &Interp{cfg: cfg, memo: map[string][]Outcome{}, active: map[string]bool{}, usedActive: map[string]bool{}, done: map[string]bool{}, probSeen: map[string]bool{}, Summaries: map[string][]Outcome{}, Visited: map[token.Pos]bool{}}
+	return &Interp{cfg: cfg, memo: map[string][]Outcome{}, active: map[string]bool{}, usedActive: map[string]bool{}, inPlace: map[*types.Func]bool{}, done: map[string]bool{}, probSeen: map[string]bool{}, Summaries: map[string][]Outcome{}, Visited: map[token.Pos]bool{}}
 }
 
 func (it *Interp) problem(pos token.Pos, format string, a ...any) {
@@ -589,6 +590,17 @@ func (it *Interp) stmt(fc *fctx, s ast.Stmt, in []State) flow {
 	case *ast.ForStmt:
 		return it.forStmt(fc, x, in)
 	case *ast.RangeStmt:
+		// `for range X.open` / `for range X.open + k`: the body runs once per open group (and k more times)
+		if x.Key == nil && x.Value == nil {
+			if isOpen, k := it.openCountExpr(x.X); isOpen {
+				fl := it.openCounted(fc, x.Pos(), x.Body, in)
+				for ; k > 0; k-- {
+					r := it.block(fc, x.Body.List, fl.normal)
+					fl.normal = r.normal
+				}
+				return fl
+			}
+		}
 		var names []string
 		for _, e := range []ast.Expr{x.Key, x.Value} {
 			if id, ok := e.(*ast.Ident); ok && id.Name != "_" {
@@ -723,33 +735,7 @@ func (it *Interp) condWithPre(fc *fctx, cond ast.Expr, st State) []condFork {
 func (it *Interp) forStmt(fc *fctx, x *ast.ForStmt, in []State) flow {
 	// counted loop over the handler's open-group counter: `for i := 0; i < X.open; i++ { … }` or counting down from it
 	if it.openCountLoop(x) {
-		fl := flow{}
-		for _, s0 := range in {
-			fl.normal = append(fl.normal, func() State { z := s0.clone(); z.NZero = true; z.G.K = 0; return z }())
-			if s0.NZero {
-				continue
-			}
-			r1 := it.block(fc, x.Body.List, []State{s0})
-			for _, s1 := range r1.normal {
-				r2 := it.block(fc, x.Body.List, []State{s1})
-				stable := len(r2.normal) > 0
-				for _, s2 := range r2.normal {
-					if s2.G.S != s1.G.S || s2.G.C-s1.G.C != s1.G.C-s0.G.C {
-						stable = false
-					}
-				}
-				if !stable {
-					it.undecided(x.Pos(), "the body of the loop over the open-group counter does not have a uniform effect")
-					continue
-				}
-				n := s1.clone()
-				n.G.C = s0.G.C
-				n.G.K = s0.G.K + (s1.G.C - s0.G.C)
-				fl.normal = append(fl.normal, n)
-			}
-		}
-		fl.normal = dedup(fl.normal)
-		return fl
+		return it.openCounted(fc, x.Pos(), x.Body, in)
 	}
 	var names []string
 	if as, ok := x.Init.(*ast.AssignStmt); ok {
@@ -760,6 +746,62 @@ func (it *Interp) forStmt(fc *fctx, x *ast.ForStmt, in []State) flow {
 		}
 	}
 	return it.loop(fc, x.Cond, x.Body, x.Post, in, names)
+}
+
+// openCounted: the effect of running body exactly N times, N the handler's open-group counter.
+func (it *Interp) openCounted(fc *fctx, pos token.Pos, body *ast.BlockStmt, in []State) flow {
+	fl := flow{}
+	for _, s0 := range in {
+		fl.normal = append(fl.normal, func() State { z := s0.clone(); z.NZero = true; z.G.K = 0; return z }())
+		if s0.NZero {
+			continue
+		}
+		r1 := it.block(fc, body.List, []State{s0})
+		for _, s1 := range r1.normal {
+			r2 := it.block(fc, body.List, []State{s1})
+			stable := len(r2.normal) > 0
+			for _, s2 := range r2.normal {
+				if s2.G.S != s1.G.S || s2.G.C-s1.G.C != s1.G.C-s0.G.C {
+					stable = false
+				}
+			}
+			if !stable {
+				it.undecided(pos, "the body of the loop over the open-group counter does not have a uniform effect")
+				continue
+			}
+			n := s1.clone()
+			n.G.C = s0.G.C
+			n.G.K = s0.G.K + (s1.G.C - s0.G.C)
+			fl.normal = append(fl.normal, n)
+		}
+	}
+	fl.normal = dedup(fl.normal)
+	return fl
+}
+
+// openCountExpr: e is X.open or X.open + k (k a non-negative constant).
+func (it *Interp) openCountExpr(e ast.Expr) (bool, int) {
+	if it.cfg.OpenField == nil {
+		return false, 0
+	}
+	e = ast.Unparen(e)
+	if it.fieldOf(e) == it.cfg.OpenField {
+		return true, 0
+	}
+	if be, ok := e.(*ast.BinaryExpr); ok && be.Op == token.ADD {
+		f, kexp := be.X, be.Y
+		if it.fieldOf(ast.Unparen(be.Y)) == it.cfg.OpenField {
+			f, kexp = be.Y, be.X
+		}
+		if it.fieldOf(ast.Unparen(f)) == it.cfg.OpenField {
+			if tv, ok := it.cfg.Info.Types[kexp]; ok && tv.Value != nil {
+				if k, exact := constant.Int64Val(constant.ToInt(tv.Value)); exact && k >= 0 && k < 8 {
+					return true, int(k)
+				}
+			}
+		}
+	}
+	return false, 0
 }
 
 // openCountLoop: the loop runs exactly X.open times (X.open the handler's open-group counter) and its body does not
@@ -1119,6 +1161,35 @@ func (it *Interp) assign(fc *fctx, x *ast.AssignStmt, in []State) []State {
 			}
 		}
 	}
+	// `flag := h2.sep` with the flag's value not yet known: decide it here, so that the copy and the original stay equal
+	if len(x.Rhs) == len(x.Lhs) && (x.Tok == token.ASSIGN || x.Tok == token.DEFINE) {
+		for i := range x.Lhs {
+			if _, isBool := it.boolKey(fc, x.Lhs[i]); !isBool {
+				continue
+			}
+			rhs := ast.Unparen(x.Rhs[i])
+			if u, ok := rhs.(*ast.UnaryExpr); ok && u.Op == token.NOT {
+				rhs = ast.Unparen(u.X)
+			}
+			if _, simple := it.boolKey(fc, rhs); !simple {
+				continue
+			}
+			if it.cfg.IsColour != nil && it.cfg.IsColour(rhs) {
+				continue
+			}
+			var forked []State
+			for _, st := range in {
+				if _, known := it.evalBool(fc, rhs, st); known {
+					forked = append(forked, st)
+					continue
+				}
+				for _, f := range it.evalCond(fc, rhs, st) {
+					forked = append(forked, f.St)
+				}
+			}
+			in = forked
+		}
+	}
 	var out []State
 	for _, st := range in {
 		n := st.clone()
@@ -1140,6 +1211,23 @@ func (it *Interp) assign(fc *fctx, x *ast.AssignStmt, in []State) []State {
 						k, _ := constant.Int64Val(constant.ToInt(tv.Value))
 						n.NOpen += int(k)
 						continue
+					}
+				}
+				// `X.open = X.open + k` (also as one position of a tuple assignment)
+				if x.Tok == token.ASSIGN && len(x.Rhs) == len(x.Lhs) {
+					if be, ok := ast.Unparen(x.Rhs[i]).(*ast.BinaryExpr); ok && (be.Op == token.ADD || be.Op == token.SUB) {
+						self, kexp := be.X, be.Y
+						if be.Op == token.ADD && exprString(be.Y) == exprString(l) {
+							self, kexp = be.Y, be.X
+						}
+						if tv, ok := it.cfg.Info.Types[kexp]; ok && tv.Value != nil && exprString(self) == exprString(l) {
+							k, _ := constant.Int64Val(constant.ToInt(tv.Value))
+							if be.Op == token.SUB {
+								k = -k
+							}
+							n.NOpen += int(k)
+							continue
+						}
 					}
 				}
 				it.undecided(x.Pos(), "the open-group counter is assigned in a way the interpreter does not model")
@@ -1291,6 +1379,12 @@ func (it *Interp) callStmt(fc *fctx, call *ast.CallExpr, in []State) []State {
 			return dedup(exits)
 		}
 	}
+	if fn != nil && fn.FullName() == "(log/slog.Record).Attrs" && len(call.Args) == 1 {
+		// (a function literal was interpreted above) a callback given by name or as a bound method is not followed here:
+		// what it writes per attribute would be skipped silently
+		it.undecided(call.Pos(), "the callback given to Record.Attrs is not a function literal: what it emits per attribute is not interpreted")
+		return in
+	}
 	if fn == nil {
 		return in
 	}
@@ -1384,12 +1478,52 @@ func (it *Interp) applyCall(fc *fctx, call *ast.CallExpr, fn *types.Func, in []S
 					combos = nc
 				}
 			}
+			// a method of the handler: what the caller knows about the receiver's separator flag holds in the callee
+			recvKey, recvVal, recvKnown := "", false, false
+			if sig.Recv() != nil && it.cfg.SepField != nil && len(args) > 0 && decl.Recv != nil && len(decl.Recv.List) == 1 && len(decl.Recv.List[0].Names) == 1 {
+				if v, k := st.Env[exprString(args[0])+"."+it.cfg.SepField.Name()]; k {
+					recvKey, recvVal, recvKnown = decl.Recv.List[0].Names[0].Name+"."+it.cfg.SepField.Name(), v, true
+				}
+			}
 			for _, combo := range combos {
 				env := map[string]bool{}
 				var ks []string
 				for _, c := range combo {
 					env[c.name] = *c.val
 					ks = append(ks, fmt.Sprintf("%s=%v", c.name, *c.val))
+				}
+				if recvKnown {
+					env[recvKey] = recvVal
+					ks = append(ks, fmt.Sprintf("%s=%v", recvKey, recvVal))
+				}
+				// a part of the handler's own method (`h.appendRest(buf, r)`): interpreted in place, with the caller's absolute
+				// nesting depth — a summary is relative to its entry and cannot tell the brace that ends the line
+				if it.isHandlerMethod(fn) && !it.inPlace[fn] {
+					it.inPlace[fn] = true
+					savedFn := it.curFn
+					it.curFn = fn.Name()
+					cfc := it.ctxFor(fn, decl)
+					entry := st.clone()
+					entry.Env = env
+					fl := it.block(cfc, decl.Body.List, []State{entry})
+					it.curFn = savedFn
+					delete(it.inPlace, fn)
+					back := func(r State, ret int8) {
+						n := r.clone()
+						n.Env = map[string]bool{}
+						for k, v := range st.Env {
+							n.Env[k] = v
+						}
+						n.Snap = st.Snap
+						out = append(out, callResult{n, ret})
+					}
+					for _, r := range fl.returns {
+						back(r.St, r.Ret)
+					}
+					for _, r := range fl.normal {
+						back(r, -1)
+					}
+					continue
 				}
 				for _, o := range it.summary(fn, decl, st.G.S, env, strings.Join(ks, ",")) {
 					n := st.clone()
@@ -1427,6 +1561,28 @@ func (it *Interp) applyCall(fc *fctx, call *ast.CallExpr, fn *types.Func, in []S
 		}
 	}
 	return out
+}
+
+// isHandlerMethod: fn is a method of the handler type (the struct that holds the pre-rendered bytes).
+func (it *Interp) isHandlerMethod(fn *types.Func) bool {
+	sig := fn.Type().(*types.Signature)
+	if sig.Recv() == nil || it.cfg.PreField == nil {
+		return false
+	}
+	t := sig.Recv().Type()
+	if p, ok := t.(*types.Pointer); ok {
+		t = p.Elem()
+	}
+	st, ok := t.Underlying().(*types.Struct)
+	if !ok {
+		return false
+	}
+	for i := 0; i < st.NumFields(); i++ {
+		if st.Field(i) == it.cfg.PreField {
+			return true
+		}
+	}
+	return false
 }
 
 // summary computes (least fixpoint) the outcomes of an emitter from grammar state s with the given boolean arguments.
